@@ -11,11 +11,10 @@ Section DBRunP.
 Variable E : env.
 Variable C : cenv.
 Variable norm : point -> point.
-Variable inplace : bool.
 Hypothesis norm_wf : forall p, wf_point p -> wf_point (norm p).
 
-Notation step := (step E C norm inplace).
-Notation run := (run E C norm inplace).
+Notation step := (step E C norm).
+Notation run := (run E C norm).
 Notation wf_q := (wf_q E).
 Notation wf_insert := (wf_insert norm).
 
@@ -53,12 +52,6 @@ Definition wf_op (o : op) : Prop :=
   | _ => True
   end.
 
-Definition is_update (o : op) : bool :=
-  match o with Update _ _ _ | UpdateAll _ | Handle _ (HUpdate _ _) | Handle _ (HUpdateAll _) => true | _ => false end.
-(* MemoryStorage updates stored objects in place: an update whose callable raises half-way
-   leaves earlier rows changed under a still-valid index (known finding F16) *)
-Definition no_torn_update (o : op) (x : out) : Prop := inplace = false \/ is_update o = false \/ x <> ORaise.
-
 Lemma wf_q_drop name : wf_q (QS AMeas [] (TCmp Ceq (VStr name))).
 Proof. split; [exact I|]. intros _. reflexivity. Qed.
 Lemma wf_q_noop a : wf_q (QNoop a).
@@ -70,33 +63,28 @@ Proof.
   exact (proj2 (proj2 (proj2 (remove_helper_spec E (read_prelude s) q m (read_prelude_Inv Rep_build s HI) Hq Hs)))).
 Qed.
 
-Lemma update_helper_Inv s ua q u m : Inv s -> wf_q q ->
-  let r := update_helper E C norm inplace s ua q u m in
-  (inplace = false \/ snd r <> ORaise) -> Inv (fst r).
+Lemma update_helper_Inv s ua q u m : Inv s -> wf_q q -> Inv (fst (update_helper E C norm s ua q u m)).
 Proof.
-  intros HI Hq. destruct u as [u|]; [|cbn; intros _; exact HI].
-  destruct (upd_given u) eqn:Eg; [|unfold update_helper; rewrite Eg; cbn; intros _; exact HI].
-  pose proof (update_helper_spec E C norm inplace norm_wf s ua q u m HI Hq Eg) as H. cbn zeta in *.
+  intros HI Hq. destruct u as [u|]; [|cbn; exact HI].
+  destruct (upd_given u) eqn:Eg; [|unfold update_helper; rewrite Eg; cbn; exact HI].
+  pose proof (update_helper_spec E C norm norm_wf s ua q u m HI Hq Eg) as H. cbn zeta in *.
   destruct (spec_update_rows C norm (upd_sel E ua q m) u (st_rows s)) as [[l n]|].
-  - intros _. tauto.
-  - destruct H as [Hr Hs]. intros [Hf|Hn]; [rewrite (Hs Hf); exact HI|congruence].
+  - tauto.
+  - destruct H as [Hr Hs]. rewrite Hs. exact HI.
 Qed.
 
-Theorem step_Inv s o : Inv s -> wf_op o -> no_torn_update o (snd (step s o)) -> Inv (fst (step s o)).
+Theorem step_Inv s o : Inv s -> wf_op o -> Inv (fst (step s o)).
 Proof.
-  intros HI Hw Hn.
+  intros HI Hw.
   assert (HP : Inv (read_prelude s)) by (apply (read_prelude_Inv Rep_build); exact HI).
-  assert (Hupd : forall s0 ua q u m, Inv s0 -> wf_q q ->
-            (inplace = false \/ snd (update_helper E C norm inplace s0 ua q u m) <> ORaise) ->
-            Inv (fst (update_helper E C norm inplace s0 ua q u m))) by (intros; now apply update_helper_Inv).
   destruct o as [ps m|q m|name| |q u m|u|q m srt|q m|q m|q m|ks q m|srt| | | |m|ks m|m|k m|m| |auto| |name h];
     cbn [step wf_op] in *.
   - exact (proj2 (proj2 (proj2 (insert_loop_spec norm ps s m 0 HI Hw)))).
   - now apply remove_Inv.
   - unfold db_drop. exact (proj2 (proj2 (proj2 (remove_helper_spec E _ _ _ HP (proj1 (wf_q_drop name)) (proj2 (wf_q_drop name)))))).
   - apply reset_database_Inv.
-  - unfold db_update in *. apply Hupd; auto. destruct Hn as [Hn|[Hn|Hn]]; auto; discriminate.
-  - unfold db_update_all in *. apply Hupd; auto; [apply wf_q_noop|]. destruct Hn as [Hn|[Hn|Hn]]; auto; discriminate.
+  - unfold db_update. now apply update_helper_Inv.
+  - unfold db_update_all. apply update_helper_Inv; [exact HP|apply wf_q_noop].
   - now rewrite db_search_fst.
   - now rewrite db_count_fst.
   - now rewrite db_contains_fst.
@@ -123,35 +111,32 @@ Proof.
     + exact (proj2 (proj2 (proj2 (insert_loop_spec norm ps s (Some name) 0 HI Hw)))).
     + now apply remove_Inv.
     + unfold db_drop. exact (proj2 (proj2 (proj2 (remove_helper_spec E _ _ _ HP (proj1 (wf_q_drop name)) (proj2 (wf_q_drop name)))))).
-    + unfold db_update in *. apply Hupd; auto. destruct Hn as [Hn|[Hn|Hn]]; auto; discriminate.
-    + unfold db_update in *. apply Hupd; auto; [apply wf_q_noop|]. destruct Hn as [Hn|[Hn|Hn]]; auto; discriminate.
+    + unfold db_update. now apply update_helper_Inv.
+    + unfold db_update. apply update_helper_Inv; [exact HP|apply wf_q_noop].
 Qed.
 
-(* a history all of whose operations are in their documented domain and (MemoryStorage only)
-   contains no update torn by a raising callable *)
-Fixpoint ok_history (s : state) (ops : list op) : Prop :=
-  match ops with
-  | [] => True
-  | o :: r => wf_op o /\ no_torn_update o (snd (step s o)) /\ ok_history (fst (step s o)) r
-  end.
+(* a history all of whose operations are in their documented domain *)
+Fixpoint wf_history (ops : list op) : Prop := match ops with [] => True | o :: r => wf_op o /\ wf_history r end.
 
 Lemma run_cons s o r : run s (o :: r) = (snd (step s o) :: fst (run (fst (step s o)) r), snd (run (fst (step s o)) r)).
 Proof. cbn [DB.run]. destruct (step s o) as [s' x]. cbn [fst snd]. destruct (run s' r). reflexivity. Qed.
 
-Theorem run_Inv : forall ops s, Inv s -> ok_history s ops -> Inv (snd (run s ops)).
+Theorem run_Inv : forall ops s, Inv s -> wf_history ops -> Inv (snd (run s ops)).
 Proof.
   induction ops as [|o r IH]; intros s HI Hok; [exact HI|].
-  destruct Hok as [Hw [Hn Hr]]. rewrite run_cons. cbn [snd]. apply IH; [now apply step_Inv|exact Hr].
+  destruct Hok as [Hw Hr]. rewrite run_cons. cbn [snd]. apply IH; [now apply step_Inv|exact Hr].
 Qed.
 
-Theorem reachable_Inv auto ops : ok_history (init auto) ops -> Inv (snd (run (init auto) ops)).
+Theorem reachable_Inv auto ops : wf_history ops -> Inv (snd (run (init auto) ops)).
 Proof. apply run_Inv, Inv_init. Qed.
 
-(* with CSVStorage (no in-place mutation) the side condition on updates disappears *)
-Fixpoint wf_history (ops : list op) : Prop := match ops with [] => True | o :: r => wf_op o /\ wf_history r end.
-Lemma wf_ok_history : inplace = false -> forall ops s, wf_history ops -> ok_history s ops.
+(* a described index and a rebuilt one give the same set of matches for every query the index serves *)
+Theorem valid_is_rebuilt_search i pts q : Rep i pts -> wf_points pts -> wf_query E q -> exact_for_index q = true ->
+  exists a b, isearch E i q = Some a /\ isearch E (ix_build pts) q = Some b /\ NoDup a /\ NoDup b /\ forall k, In k a <-> In k b.
 Proof.
-  intros Hf. induction ops as [|o r IH]; intros s H; [exact I|]. destruct H as [Hw Hr].
-  split; [exact Hw|]. split; [left; exact Hf|]. now apply IH.
+  intros HR Hwf Hq Hx.
+  destruct (isearch_exact E i pts q HR Hwf Hq Hx) as [a [Ha [Hna Hia]]].
+  destruct (isearch_exact E (ix_build pts) pts q (Rep_build pts Hwf) Hwf Hq Hx) as [b [Hb [Hnb Hib]]].
+  exists a, b. repeat split; auto; intros H; [apply Hib, Hia|apply Hia, Hib]; exact H.
 Qed.
 End DBRunP.
